@@ -6,9 +6,11 @@ CFG = dict(
         model_vo=["model/Transfer.vo", "model/TransferSpec.vo"],
         extract="Ex_C07",
         level_text="Theorems over the transliterated ObjectSender/ObjectReceiver (coq/model/Transfer.v), for ALL sources, "
-                   "commit lists, tablesToSend, common sets, destinations, object sizes and size limits: C07_exact (the "
+                   "commit lists, tablesToSend, common sets, destinations (ANY subset of objects of ANY kind: table objects without "
+                   "indices/blocks, indices without tables, ...; no well-formedness of the destination is assumed), object sizes and size limits: C07_exact (the "
                    "WriteObjects/Receive loop terminates without rejection and the destination ends with exactly the sent "
-                   "commits/tables/blocks, identical under identical ids, indices/profile rebuilt, frame), C07_order, "
+                   "commits/tables/blocks, identical under identical ids, indices/profile rebuilt so that every sent table is usable, frame), "
+                   "C07_received_usable (every table object of an accepted sequence is usable at the end whatever the store held before), C07_order, "
                    "C07_parent_gate and C07_table_gate (invariants Closed / TablesWF preserved by every Receive of ARBITRARY "
                    "object sequences, also when it rejects), C07_split_independent (final state independent of the limit), "
                    "C07_shallow_iff/_reject/_silent (exact characterisation when a declared-common commit is not full at the "
@@ -18,16 +20,24 @@ CFG = dict(
                    "built into the abstraction: an id present in two stores names the same content - hypothesis `compat`); "
                    "packfile framing, table/commit/block byte codecs are C06/C17/C18, the content of block indices / table "
                    "index / profile is C03 - here they are named by the table/block they are derived from and their bytes are "
-                   "compared source-vs-destination by the Go oracle (raw store.Get equality, re-indexing, diff.DiffTables empty).",
+                   "compared source-vs-destination by the Go oracle (raw store.Get equality, re-indexing, table index = key cells of each "
+                   "block's first row, diff.DiffTables against the original and against itself empty).  Commit author zones and the "
+                   "column layout / key position of tables are content the model does not interpret (oracle + id comparison only).",
         rule="fixed witnesses (DESIGN probe 2 commits/3 blocks at all 5 limits and at every limit equal to / one byte around each object boundary of its stream, identical tables on several commits, same rows "
              "under two pks, empty and 255-row tables, full/shallow common commits, bad order, source lacking a table/block, "
-             "depth-limited tables, 26 hostile edits incl. the witnesses of fixes 2b449a8 and 427cc6f); exhaustive: every DAG on "
+             "depth-limited tables, destinations pre-populated per object kind (table object alone, +blocks, stale index/profile, single "
+             "block indices, indices without table), tables whose key is not the leading column / in another order than the header "
+             "(multi-block), a 12-commit chain over author zones incl. -0330 -0930 -0230 -0001 +1245 +1400 -1200 -2359, 37 hostile edits "
+             "incl. the witnesses of fixes 2b449a8 and 427cc6f and pk index == number of columns); exhaustive: every subset of the 7 "
+             "objects of a two-block table at the destination (128; x limit 1 and x stale content in thorough); every DAG on "
              "<=3 commits (<=2 parents) x 3 tables (two sharing their first block) x limits {1,huge} (quick; all 5 in thorough) x "
              "{empty destination, first commit common and full}; random: DAG fragments of 1..12 commits with merges, 1..5 tables "
-             "from a pool of 10 (multi-block, shared first block, identical tables), commit list/commons/tables computed by "
-             "apiutils.ClosedSetsFinder (40%, depth 0..2) or hand-picked, limit in {1,17,200,4096,2^40,random} or (25%) exactly on / one byte around an object boundary of the stream, 5 destination "
-             "classes (commons with tables / + bare blocks / + other tables / + part of the sent commits / shallow commons), "
-             "7% shuffled lists, 14% source drops, 25% hostile variants (drop/swap/tamper/duplicate objects, re-framed with "
+             "from a pool of 15 (multi-block, shared first block, identical tables, 4 column-layout/key variants), half of the commits in a "
+             "random non-UTC zone, commit list/commons/tables computed by "
+             "apiutils.ClosedSetsFinder (40%, depth 0..2) or hand-picked, limit in {1,17,200,4096,2^40,random} or (25%) exactly on / one byte around an object boundary of the stream, 6 destination "
+             "classes (commons with tables / + bare blocks / + other tables / + part of the sent commits / shallow commons / every "
+             "non-common table present as a random subset of its objects kind by kind), "
+             "7% shuffled lists, 14% source drops, 25% hostile variants (drop/swap/tamper (5 table kinds)/duplicate objects, re-framed with "
              "the real PackfileWriter). distinct = distinct case text; non-trivial = at least one commit to send",
         trusted=["harness numbering by content: real sums are mapped to (commit index, first table index with that content, "
                  "chunk number, (pk variant, chunk)) built while ingesting the source; object sizes recorded in the case are "
